@@ -162,18 +162,30 @@ Example C19_call_answered_nonvacuous :
 Proof. eexists. split; [vm_compute; reflexivity|]. vm_compute. repeat split. Qed.
 Print Assumptions C19_call_answered_nonvacuous.
 
-(* the residual window is real in the model: a send that passed its
-   closed-check before stop() and pushes after the drain is stranded *)
-Example C19_late_push_example :
-  exists s, steps (init 2)
-              [EPreStart true; EStartAck true; EPostStart true; ESelStop false;
-               ESendPass w2; EStopSwap; EStopPush true; ESelMsg None; ESelStop true;
-               EBeginStop; EPreStop true; EDrain; ESendPush w2 SOk; EDropRx; EPostStop true]
-            = Some s /\
-            is_gone s = true /\ accepted s = [w2] /\ released s = [] /\
-            late s = [w2] /\ overlap s = [w2].
-Proof. eexists. split; [vm_compute; reflexivity|]. vm_compute. repeat split. Qed.
-Print Assumptions C19_late_push_example.
+(* known finding C19-late-push: without the [late] exception the statement is
+   false of the current code.  Witnesses (both forced on the real crate through
+   the scheduling points of compio_actor::verif, corpus/C19 cases `4 1`, `4 2`):
+   a call that passed its closed-check before stop() and pushes after the
+   drain; a call arriving after the drain when Cluster::join cancels the task *)
+Lemma C19_call_answered_no_exception_refuted :
+  (exists s, steps (init 2)
+               [EPreStart true; EStartAck true; EPostStart true; ESelStop false;
+                ESendPass w2; EStopSwap; EStopPush true; ESelMsg None; ESelStop true;
+                EBeginStop; EPreStop true; EDrain; ESendPush w2 SOk; EDropRx; EPostStop true]
+             = Some s /\
+             is_gone s = true /\ In w2 (accepted s) /\ ~ In w2 (released s) /\
+             late s = [w2] /\ overlap s = [w2]) /\
+  (exists s, steps (init 2)
+               [EPreStart true; EStartAck true; EPostStart true; ESelStop false;
+                ECancel; EDrain; ESendPass w2; ESendPush w2 SOk; EDropRx]
+             = Some s /\
+             is_gone s = true /\ In w2 (accepted s) /\ ~ In w2 (released s) /\
+             late s = [w2] /\ overlap s = []).
+Proof.
+  split; (eexists; split; [vm_compute; reflexivity|]); vm_compute;
+    (repeat split; auto); intros [].
+Qed.
+Print Assumptions C19_call_answered_no_exception_refuted.
 
 (* ---------------------------------------------------------------------- *)
 (* names                                                                    *)
